@@ -25,6 +25,7 @@ def run(ctx):
     n = iorules.exact_reads_only(ctx, load, 'X1', error_mapping_ok=True)
     ctx.floor('I/O call sites in the loader cone', n, 10)
     iorules.take_bytes_length_check(ctx, 'X1')
+    iorules.entry_points(ctx, 'X1')        # no peeking / prefetching in front of the parser (a short file must reach it as it is)
     iorules.outer_reader_calls(ctx, 'X2')
     iorules.count_driven_loops(ctx, 'X3')
     spec = SP.load_spec()
